@@ -3156,13 +3156,11 @@ class RomanNumeral(Harmony):
             The number of the chord.
         """
         # Corrected step after degree2
-        key_step = re.search(r"[a-gA-G]", self.local_key).group(0)
-        key_alter = (
-            re.search(r"[#b]", self.local_key).group(0)
-            if re.search(r"[#b]", self.local_key)
-            else ""
-        )
-        key_alter = ALT_TO_INT[key_alter]
+        key_match = re.search(r"[a-gA-G]", self.local_key)
+        key_step = key_match.group(0)
+        # the alteration follows the key letter ("b" alone is B minor, not a flat)
+        key_alter = re.search(r"[#b]", self.local_key[key_match.end() :])
+        key_alter = ALT_TO_INT[key_alter.group(0) if key_alter else ""]
         try:
             interval = (
                 Roman2Interval_Min[self.secondary_degree]
@@ -6106,12 +6104,11 @@ def process_local_key(loc_k_text, glob_k_text, return_step_alter=False):
     transposition_interval = transposition_interval.change_quality(
         local_key_sharps - local_key_flats
     )
-    key_step = re.search(r"[a-gA-G]", glob_k_text).group(0)
-    key_alter = (
-        re.search(r"[#b]", glob_k_text).group(0)
-        if re.search(r"[#b]", glob_k_text)
-        else ""
-    )
+    key_match = re.search(r"[a-gA-G]", glob_k_text)
+    key_step = key_match.group(0)
+    # the alteration follows the key letter ("b" alone is B minor, not a flat)
+    key_alter = re.search(r"[#b]", glob_k_text[key_match.end() :])
+    key_alter = key_alter.group(0) if key_alter else ""
     key_alter = key_alter.replace("b", "-")
     key_alter = ALT_TO_INT[key_alter]
     key_step, key_alter = transpose_note(key_step, key_alter, transposition_interval)
@@ -6194,10 +6191,11 @@ def process_local_key(loc_k, glob_k, return_step_alter=False):
     transposition_interval = transposition_interval.change_quality(
         local_key_sharps - local_key_flats
     )
-    key_step = re.search(r"[a-gA-G]", glob_k).group(0)
-    key_alter = (
-        re.search(r"[#b]", glob_k).group(0) if re.search(r"[#b]", glob_k) else ""
-    )
+    key_match = re.search(r"[a-gA-G]", glob_k)
+    key_step = key_match.group(0)
+    # the alteration follows the key letter ("b" alone is B minor, not a flat)
+    key_alter = re.search(r"[#b]", glob_k[key_match.end() :])
+    key_alter = key_alter.group(0) if key_alter else ""
     key_alter = key_alter.replace("b", "-")
     key_alter = ALT_TO_INT[key_alter]
     key_step, key_alter = transpose_note(key_step, key_alter, transposition_interval)
